@@ -1172,11 +1172,24 @@ def snapshot(root):
     return js, ids
 
 
+_REF_TOKENS = {}       # id(target) -> (serial number, target kept alive); reset per run
+
+
+def _ref_token(target):
+    """Identity of a reference target as a number that does not depend on addresses:
+    the order in which targets were first seen in this run."""
+    ent = _REF_TOKENS.get(id(target))
+    if ent is None or ent[1] is not target:
+        ent = (len(_REF_TOKENS), target)
+        _REF_TOKENS[id(target)] = ent
+    return ent[0]
+
+
 def _plain(v):
     """Contents as nested plain data with type tags (observed through the
     symbolic read API only)."""
     if isinstance(v, pg.Ref):
-        return ['ref', id(v.value)]
+        return ['ref', _ref_token(v.value)]
     if isinstance(v, pg.List):
         return ['L', [_plain(x) for x in v.sym_values()]]
     if isinstance(v, pg.Dict):
@@ -1251,6 +1264,7 @@ def run_case(case: dict, prop=None):
     oracle = ORACLES[prop](forest, bad, probes, case)
     # hook recording classes into this forest
     values.EVENT_SINK[0] = forest._on_event
+    _REF_TOKENS.clear()
     try:
         oracle.start()
         keep_alive = []
